@@ -41,6 +41,10 @@ Definition req (U : list request) (j : nat) : request := nth j U dummy_req.
 Definition hop := (nat * outcome * cmode * list str)%type.
 Definition to_op (U : list request) (h : hop) : op :=
   let '(j, oc, cm, aux) := h in mkOp (req U j) oc cm aux.
+(* either kind of calculation: external program, or optimisation by autodE's own optimiser *)
+Inductive hgop := HExt (h : hop) | HOpt (j : nat).
+Definition to_gop (U : list request) (h : hgop) : gop :=
+  match h with HExt h => GExt (to_op U h) | HOpt j => GOpt (req U j) end.
 (* an observation as sent by the harness: (final name, invoked?, index of the request whose output
    the energy was parsed from, raised?) *)
 Definition hobs := (str * bool * option nat * bool)%type.
@@ -60,16 +64,16 @@ Definition line_eqb (a b : str * nat) : bool := str_eqb (fst a) (fst b) && Nat.e
 (* output file -> (file name, terminated normally?, universe index of its producer) *)
 Definition outs_of (U : list request) (js : list nat) (fs : fsys) : list (str * bool * nat) :=
   flat_map (fun f => match f_kind f with
-                     | KOutput c => [(f_name f, c_normal c, first_idx (fun j => request_eqb (c_producer c) (req U j)) js)]
+                     | KOutput c | KTraj c => [(f_name f, c_normal c, first_idx (fun j => request_eqb (c_producer c) (req U j)) js)]
                      | _ => [] end) fs.
 Definition out_eqb (a b : str * bool * nat) : bool :=
   str_eqb (fst (fst a)) (fst (fst b)) && Bool.eqb (snd (fst a)) (snd (fst b)) && Nat.eqb (snd a) (snd b).
 
 (* one executed sequence: per-operation observations, final registry (in file order), final
    directory listing and the content of every output file in it *)
-Definition chk_seq (U : list request) (js : list nat) (hops : list hop) (eobs : list hobs)
+Definition chk_seq (U : list request) (js : list nat) (hops : list hgop) (eobs : list hobs)
            (ereg : list (str * nat)) (efiles : list str) (eouts : list (str * bool * nat)) : bool :=
-  let '(st, obs) := run_ops init_state (map (to_op U) hops) in
+  let '(st, obs) := run_gops init_state (map (to_gop U) hops) in
   Nat.eqb (List.length obs) (List.length eobs) &&
   forallb (fun p => obs_eqb U (fst p) (snd p)) (combine obs eobs) &&
   list_eqb line_eqb (map (canon_line U js) (st_reg st)) ereg &&
@@ -77,7 +81,7 @@ Definition chk_seq (U : list request) (js : list nat) (hops : list hop) (eobs : 
   set_eqb out_eqb (outs_of U js (st_fs st)) eouts.
 
 (* the same sequence executed in two processes: the second starts from what the first left on disk *)
-Definition chk_seq_restart (U : list request) (js : list nat) (h1 h2 : list hop) (eobs : list hobs)
+Definition chk_seq_restart (U : list request) (js : list nat) (h1 h2 : list hgop) (eobs : list hobs)
            (ereg : list (str * nat)) (efiles : list str) (eouts : list (str * bool * nat)) : bool :=
   chk_seq U js (h1 ++ h2) eobs ereg efiles eouts.
 
